@@ -58,11 +58,13 @@ func checkRuntime(c *Ctx, prop string) {
 	}
 	if prop == "C05" {
 		rtRefused(c, c.scale(4, 40), 150)
+		rtTornView(c, c.scale(6, 60))
 	}
 	if prop == "C06" {
 		rtUnregRace(c, c.scale(20, 300))
 	}
 	if prop == "C08" {
+		rtShutdownRace(c, c.scale(150, 3000))
 		// API calls return at the latest when their own context ends, the monitor is never left blocked, and a
 		// watcher's Done lets the goroutines exit - also for the library's own wrapper around WatchArgs, the Blank
 		c20BlankCancel(c, rng.Fork(), c.scale(25, 400))
